@@ -22,9 +22,13 @@ def operand_value(prov, tup, item):
     if prov[0] == 'new' and prov[1] == 'Arithmetic' and len(prov[2]) == 1:
         inner = prov[2][0]
         # Arithmetic(<text of a register-kinded field>): its numeric reading for literal spellings
-        for _ in range(3):
+        for _ in range(4):
             if inner[0] == 'call' and inner[1] in ('str', 'lookup_register') and len(inner[2]) == 1:
                 inner = inner[2][0]
+            elif inner[0] == 'mcall' and inner[2] == 'format' and inner[1] in (C('{}'), C('{:d}'), C('{0}')) and len(inner[3]) == 1 and not inner[4]:
+                inner = inner[3][0]          # '{}'.format(n): the decimal text of n, like str(n)
+            elif inner[0] == 'bin' and inner[1] == '%' and inner[2] in (C('%d'), C('%s'), C('%i')) and inner[3][0] != 'tuple':
+                inner = inner[3]             # '%d' % n
         if inner[0] == 'attr' and inner[1] == item:
             return tup.get(inner[2]), 'arith-of-field'
     return None, 'unknown'
@@ -40,6 +44,8 @@ def orig_roles(rel, facts, name, tup):
     out = {}
     if spec is None:
         return out
+    if args_attrs is None or len(args_attrs) != len(spec['operands']):
+        raise AnalysisError('{}: which attributes args() of {} hands to the encoder is not understood (the operands of the original instruction cannot be named)'.format(name, cls))
     for op, attr in zip(spec['operands'], args_attrs):
         out[op['role']] = tup.get(attr)
     return out
@@ -74,13 +80,17 @@ def check_rules(rep, facts, rel, rule_sem, rule_acc, tier, only_names=None):
                                      ru.key, con.mnemonic), line=con.node.lineno), instance=ru.key + ' meaning')
                 continue
         cm = con.mnemonic
+        if cm is None:
+            rep.undecided('rule {!r}: the mnemonic handed to {} ({}) is not a constant the analysis can read'.format(ru.key, con.cls, show(con.fields.get('name'))[:60]))
+            continue
         if cm not in oracle.RVC or cm not in sums:
             rep.fail(Finding(rule_sem, 'transform_compressible', con.node, 'rule {!r} builds {!r}, which is not an RV32C mnemonic'.format(ru.key, cm), line=con.node.lineno))
             continue
         s = sums[cm]
         args_attrs = facts.args_attrs(con.cls)
         if args_attrs is None:
-            raise AnalysisError('rule {!r}: which attributes args() of {} returns is not understood'.format(ru.key, con.cls))
+            rep.undecided('rule {!r}: which attributes args() of {} returns is not understood'.format(ru.key, con.cls))
+            continue
         attr_src = {a: src for a, src in facts.full_attr_order(con.cls)}
         if len(args_attrs) != len(s.params):
             rep.fail(Finding(rule_sem, 'transform_compressible', con.node, 'rule {!r}: class {} yields {} operands, encoder of {} takes {}'.format(
@@ -95,7 +105,18 @@ def check_rules(rep, facts, rel, rule_sem, rule_acc, tier, only_names=None):
         bad_sem = None
         unknown = None
         modes = ['literal'] + (['offset'] if oracle.RV32_FORMAT.get(ru.name) in ('J', 'B') else [])
-        for tup in (t for mode in modes for t in rel.region_tuples(ru, mode)):
+        region = (t for mode in modes for t in rel.region_tuples(ru, mode))
+        while True:
+            # a rule whose region cannot be enumerated is no verdict about that rule; the other rules are still judged
+            try:
+                tup = next(region)
+            except StopIteration:
+                break
+            except AnalysisError as e:
+                rep.undecided(str(e))
+                unknown = ('<region>', None)
+                n = -1
+                break
             n += 1
             ops = {}
             for p, attr in zip(s.params, args_attrs):
@@ -122,6 +143,8 @@ def check_rules(rep, facts, rel, rule_sem, rule_acc, tier, only_names=None):
             if want != got:
                 bad_sem = bad_sem or (tup, ops, '0x{:04x} = {} {} means {} {}, the original is {} {}'.format(
                     word, dec, decode_rvc(dec, word), base, fields, ru.name, {k: v for k, v in tup.items() if k != 'name'}))
+        if n < 0:
+            continue
         total += n
         if unknown:
             prov = unknown[1]
@@ -131,7 +154,12 @@ def check_rules(rep, facts, rel, rule_sem, rule_acc, tier, only_names=None):
                                  'rule {!r} builds operand {} from item.{}, a field {} items do not have (AttributeError with -c)'.format(
                                      ru.key, unknown[0], prov[2], cls_), line=con.node.lineno), instance=ru.key + ' missing field')
                 continue
-            raise AnalysisError('rule {!r}: constructor argument {} = {} has no numeric reading in the relation fragment'.format(ru.key, unknown[0], show(unknown[1])))
+            rep.undecided('rule {!r}: constructor argument {} = {} has no numeric reading in the relation fragment'.format(ru.key, unknown[0], show(unknown[1])))
+            continue
+        if n == 0 and getattr(ru, 'imm_domain_is_fallback', False):
+            rep.undecided('rule {!r}: the bounds of its immediate test are not read off the formulas ({}), so its region cannot be enumerated'.format(
+                ru.key, '; '.join(str(f) for f in ru.enum_formulas())[:200]))
+            continue
         if n == 0:
             rep.fail(Finding(rule_sem, 'transform_compressible', con.node, 'rule {!r} can never fire (empty region or shadowed by earlier rules)'.format(ru.key), line=con.node.lineno),
                      instance=ru.key + ' empty')
@@ -172,16 +200,20 @@ def check_structure(rep, facts, rel, rule):
         names = set()
         for t in cls_tables.get(con.cls, ()):
             names |= set(tables.get(t, {}))
-        if not names:
-            raise AnalysisError('{}: no mnemonic table is attributed to the class {} by parse_item (which lines build it is not understood)'.format(key, con.cls))
-        rep.check(con.mnemonic in names, rule + '.class', '{}: {} is a mnemonic of {}'.format(key, con.mnemonic, con.cls),
-                  lambda con=con, names=names: Finding(rule + '.class', 'transform_compressible', con.node,
-                                                       '{} is built with mnemonic {!r}, which is not one of its own ({}): size() and args() would not match the encoder'.format(
-                                                           con.cls, con.mnemonic, sorted(names)), line=con.node.lineno))
         line = con.fields.get('line')
         rep.check(line == ('attr', rel.pa.item, 'line'), rule + '.line', '{}: keeps the source line of the replaced instruction'.format(key),
                   lambda con=con: Finding(rule + '.line', 'transform_compressible', con.node, 'the compressed item does not carry the source line of the instruction it replaces', line=con.node.lineno),
                   nontrivial=False)
+        if not names:
+            rep.undecided('{}: no mnemonic table is attributed to the class {} by parse_item (which lines build it is not understood)'.format(key, con.cls))
+            continue
+        if con.mnemonic is None:
+            rep.undecided('{}: the mnemonic handed to {} ({}) is not a constant the analysis can read'.format(key, con.cls, show(con.fields.get('name'))[:60]))
+            continue
+        rep.check(con.mnemonic in names, rule + '.class', '{}: {} is a mnemonic of {}'.format(key, con.mnemonic, con.cls),
+                  lambda con=con, names=names: Finding(rule + '.class', 'transform_compressible', con.node,
+                                                       '{} is built with mnemonic {!r}, which is not one of its own ({}): size() and args() would not match the encoder'.format(
+                                                           con.cls, con.mnemonic, sorted(names)), line=con.node.lineno))
     # identity paths
     for r in rel.pa.rows:
         if r['crit'] is None and r['path'].end != 'raise':
